@@ -4,5 +4,6 @@
   the strings of the source only through their `repr` rendering).
 -/
 import Pyab.Properties.C13
+import Pyab.Properties.C05_float
 import Pyab.Properties.C14_text
 import Pyab.Properties.C13_reader
